@@ -238,6 +238,8 @@ class P(Prop):
     id = "C15"
     design_ref = "DESIGN.md section 5, C15"
     M = "TracklibVerif.Props.C15"
+    MX = "TracklibVerif.Props.C15Ext"
+    MF = "TracklibVerif.Props.C15ExtFin"
     theorems = [
         (M, "TV.C15.window_spec", "(w,x) is in the window of i iff w = k[j] and x = v[i-j+D] for a kernel position j whose sample index is inside the signal and not NaN"),
         (M, "TV.C15.filter_is_mean", "T1: in the domain Filter.execute succeeds, returns one value per observation, and every filtered value is (sum k[j] v[i-j+D]) / (sum k[j]) over the valid j"),
@@ -292,6 +294,14 @@ class P(Prop):
         (M, "TV.C15.execute_local", "locality for Filter.execute as a whole (list normalised in place / Kernel object / Dirac): the kernel preparation does not look at the signal"),
         (M, "TV.C15.filter_local_float", "filter_local instantiated at the IEEE doubles of the Lean runtime (the scalar type of the float streams)"),
         (M, "TV.C15.zero_norm_fails", "outside the domain (a zero norm) the method fails with a division by zero for a Kernel object, never a wrong value"),
+        (MX, "TV.C15.nonfinite_weights_nan", "over Python's numbers (Ext: exact scalars + inf, -inf, nan), no law of arithmetic: weights that are all inf / -inf / nan give NaN at every window that reads a sample, ZeroDivisionError (0 / 0 on the untouched ints) when one reads none; boundaries copied"),
+        (MX, "TV.C15.list_zero_or_nan_total", "a weight list whose total is 0 ([1,-1,0], [0,0,0]) or NaN (a NaN weight: a feature-name kernel over a feature holding a NaN): kernel[i] /= np.sum(...) does not raise, the list is left holding only inf/-inf/nan, the call returns the copied boundaries and NaN at every filtered index (ZeroDivisionError iff a window reads no sample)"),
+        (MX, "TV.C15.inf_sample_pinf", "a window holding +inf samples and no -inf, all weights positive: the output is +inf (Python floats and numpy scalars alike)"),
+        (MX, "TV.C15.inf_sample_both_nan", "a window holding a +inf and a -inf sample, positive weights: the output is NaN, no exception"),
+        (MF, "TV.C15.fin_div_fin", "temp[i] / norm as numpy computes it from finite accumulators: t/n when n != 0, else inf / -inf by the sign of t, nan for 0/0"),
+        (MF, "TV.C15.finite_weights_any_sign", "finite weights of ANY sign (negative included), every window reading a sample: out[i] = (sum k[j] v[i-j+D]) / (sum k[j]) as numpy divides — the renormalised mean when the norm is not 0, +/-inf or NaN when it cancels; never an exception with numpy weights"),
+        (MF, "TV.C15.ext_model_agrees", "no zero norm: the model over Python's numbers returns exactly the signal of the model over a field (meanSignal), so the domain theorems (filter_is_mean, filter_bounds, ...) hold for it"),
+        (MF, "TV.C15.list_ext_model_agrees", "a weight list with a non-zero total and no zero norm (negative weights allowed): executeListX = execute = (list / total, mean signal of the caller's weights)"),
     ]
     partial = []
     open_statements = ["theorems are over a linearly ordered field: IEEE rounding of the float computation is outside them, except locality (filter_local, filter_far_sample, "
@@ -300,8 +310,17 @@ class P(Prop):
                        "math.exp is a parameter of the Gaussian / Exponential kernel functions: exp_kernel_windows / smooth_gaussian assume it returns positive numbers "
                        "(true of libm on the sampled range, not proved); closed-form user functions are a function parameter tabulated by Python, "
                        "window_shape / window_of_nonneg_kernel apply to them under the stated hypotheses (even, non-negative at the sample points, positive at one)",
-                       "a window that holds an infinite sample has no weighted mean in the reals: the model (Float) is compared with the code there (inf, NaN for inf - inf and 0 * inf), nothing is judged",
-                       "a weight list whose total sum is 0, weights that are NaN (a feature-name kernel over a feature with NaN) or negative are not modelled (numpy yields nan/inf)",
+                       "a window that holds an infinite sample has no weighted mean in the reals and the property demands nothing there; what the code returns is modelled over "
+                       "Ext (Model/FilterExt.lean: exact scalars + inf, -inf, nan with the IEEE rules for the special values), compared on the 'ext' stream (and over Float on 'inff') and proved: "
+                       "+inf for +inf samples under positive weights (inf_sample_pinf), NaN for both signs (inf_sample_both_nan); no statement stronger than these exists over an "
+                       "ordered field extended with a top and a bottom, since inf - inf and 0 * inf have no value there (they are NaN)",
+                       "weight lists whose total is 0 or NaN and negative weights are outside the property (it speaks of non-negative kernels; with a total of 0 no renormalisation exists): "
+                       "they are modelled as coded over Ext, compared on the 'ext' stream, and what is returned is proved (list_zero_or_nan_total, nonfinite_weights_nan, "
+                       "finite_weights_any_sign); not judged. Not covered: an INFINITE total (an infinite weight: compared on the stream, no theorem), signed zeros (a total of -0.0 flips the "
+                       "infinities; Ext has one zero) and the rounding of a norm that cancels exactly in the rationals (the stream uses totals that are powers of two, so that the "
+                       "normalised weights are dyadic)",
+                       "the feature-name kernel over a feature holding a NaN is driven through Filter.execute (stream 'ext', via = feat) and covered by list_zero_or_nan_total; "
+                       "Model.operate / filter_seq still report it as `nanKernel` (not threaded through the front ends)",
                        "values read back as numpy scalars by a later call on the same track change ZeroDivisionError into nan outside the domain: sessions use one track per call, "
                        "and the same track is filtered twice only when both passes are in the domain",
                        "a track shorter than the half window with copied boundaries raises IndexError (short_track_index_error, smooth_too_short_fails): outside the property's "
@@ -319,7 +338,10 @@ class P(Prop):
                 "user-defined kernels given by a table of values (closed-form user functions are a function parameter tabulated by Python), "
                 "filter_seq (int kernel, default kernel, one-element list, float kernel, dispatch on dim: default / module constant / list / str, x/y/z through the feature 'temp', "
                 "in-place renormalisation of the weight list at every dimension), the same track filtered several times with the same kernel object, Track.smooth (default width), "
-                "sessions of calls threading the module-level state")
+                "sessions of calls threading the module-level state; "
+                "Filter.execute over Python's numbers (Model/FilterExt.lean: the same loops `cells` / `normalise` instantiated at Ext = exact scalars + inf, -inf, nan): a weight list "
+                "whose total is 0 / NaN / infinite (`kernel[i] /= norm` with numpy scalars does not raise), negative weights with a cancelling norm (+/-inf, not ZeroDivisionError), "
+                "NaN / infinite weights (a feature-name kernel over a feature holding NaN), infinite samples under list weights and under Kernel-object windows (0 * inf = nan)")
     trusted = ["math.exp / math.sqrt are Float.exp / Float.sqrt of the Lean runtime in the driver (both the C library's); closed-form user kernel functions are a parameter of the model: "
                "their values at the model's sample points are tabulated by the real Python function",
                "math.pow(a, n) for n = 2, 3, 5, 7 is modelled as a product (exact over the rationals, compared at 1e-9 with floats)",
@@ -344,7 +366,10 @@ class P(Prop):
             "property's domain are kept in correspondence-only streams: 'zeronorm' (a window without valid weight), "
             "'badk' (even / empty windows, support < 1, zero-sum kernels, a float kernel, reserved or unknown names, empty tracks); "
             "'zerow' (weight lists with zero weights) is judged at the indices whose valid weights have a positive sum; 'inff' (float signals holding +inf / -inf samples, "
-            "first valid / anywhere / both signs) is judged at the windows that hold no infinite sample and at the copied boundary values. non-trivial = window of "
+            "first valid / anywhere / both signs) is judged at the windows that hold no infinite sample and at the copied boundary values; 'ext' (exact stream over Ext Rat: 20 fixed weight lists "
+            "x every signal over {1, 3, NaN, inf} of the window's length, then random weight lists with a zero total / negative weights (total +/- a power of two) / a NaN or infinite weight / "
+            "positive weights, given as a list or as the name of a feature, and Kernel objects, on signals holding NaN, +inf, -inf) is compared with Model/FilterExt.lean everywhere and judged "
+            "only where the property speaks: non-negative finite weights with a positive total, at the windows holding no infinite sample. non-trivial = window of "
             "at least 3 weights and a non-constant signal (or a sliding-window case)")
 
     def setup(self):
@@ -406,7 +431,9 @@ class P(Prop):
                 "x filterBoundary True / False / never set x track lengths 1, 2, D-1, D, D+1, N-2, N-1, N, N+1, N+2 x three signals (ramp, spike, isolated NaN)",
                 "the sliding window of every user-defined kernel whose table has 1..3 values among int 0, int 1, float 0.5, float 0.0, numpy 0.25, "
                 "for the supports 1, 1.5, 2, 2.5, 3",
-                "the sliding window of every built-in kernel class at its boundary sizes (smallest support >= 1) and at the widths 1..5, 6, 7.5, 10"]
+                "the sliding window of every built-in kernel class at its boundary sizes (smallest support >= 1) and at the widths 1..5, 6, 7.5, 10",
+                "over Python's numbers (stream 'ext'): every signal over {1, 3, NaN, +inf} of length 3 for each of the 12 three-weight lists of EXT_WEIGHT_LISTS (zero total, negative, "
+                "NaN and infinite weights) — and one signal in nine of length 5 for the five-weight lists"]
 
     def rand_weights(self, rng):
         D = rng.choice([0, 1, 1, 1, 2, 2, 3, 4])
@@ -644,8 +671,8 @@ class P(Prop):
         # every weight list of EXT_WEIGHT_LISTS on every signal over {1, 3, NaN, inf} of length N..N+1 (lists) -- bounded
         for w in self.EXT_WEIGHT_LISTS:
             n = len(w)
-            for v in itertools.product([1, 3, None, "inf"], repeat=n):
-                if len(out) % (1 if n == 3 else 9) == 0 or n == 3:
+            for c, v in enumerate(itertools.product([1, 3, None, "inf"], repeat=n)):
+                if n == 3 or c % 9 == 4:
                     out.append({"kind": "ext", "sc": "r", "sig": list(v), "k": {"t": "list", "w": list(w)}, "via": "list"})
         vals = [0, 1, 2, -1, 0.5, 3, 4, -2.5, 8]
         for _ in range(500 if quick else 5000):
